@@ -56,6 +56,7 @@ opcodes = {
     "memory.size": 0x3F,
     "memory.grow": 0x40,
     "i32.const": 0x41,
+    "f32.const": 0x43,
     "i32.eqz": 0x45,
     "i32.eq": 0x46,
     "i32.ne": 0x47,
@@ -67,6 +68,12 @@ opcodes = {
     "i32.le_u": 0x4D,
     "i32.ge_s": 0x4E,
     "i32.ge_u": 0x4F,
+    "f32.eq": 0x5B,
+    "f32.ne": 0x5C,
+    "f32.lt": 0x5D,
+    "f32.gt": 0x5E,
+    "f32.le": 0x5F,
+    "f32.ge": 0x60,
     "i32.add": 0x6A,
     "i32.sub": 0x6B,
     "i32.mul": 0x6C,
@@ -389,6 +396,9 @@ class Instruction:
                 # Constant immediates are signed LEB128, indices unsigned
                 if self.__opcode == opcodes["i32.const"]:
                     WriteSignedInteger(output, arg)
+                elif self.__opcode == opcodes["f32.const"]:
+                    # IEEE 754 single precision, little endian
+                    WriteFloat(output, arg)
                 else:
                     WriteInteger(output, arg)
 
